@@ -113,6 +113,10 @@ func (n *RawNode) newContext() context.Context {
 
 // close this node.
 func (n *RawNode) close() error {
+	if n.cancel == nil {
+		// the node was never connected (manager created with WithNoConnect)
+		return nil
+	}
 	// important to cancel first to stop goroutines
 	n.cancel()
 	verifPoint("cls.cancelled", n.channel)
